@@ -233,8 +233,31 @@ pub fn c08(run: &mut Run) -> Stats {
         })
         .reduce(Stats::default, Stats::merge);
     st = st.merge(st_d);
+    // (e) property-escape expressions: every sequence of words between \p{ and }, bare and inside a class
+    let words: Vec<&str> = vec!["sc", "scx", "gc", "Script", "General_Category", "=", "Greek", "Latin", "Lu", "L", "ASCII", "Any", "RGI_Emoji", "x", "_", " "];
+    let wn = if thorough { 5 } else { 4 };
+    let wtotal = total_strings(words.len() as u64, wn);
+    let wchunks = (wtotal + chunk - 1) / chunk;
+    let st_e = (0..wchunks)
+        .into_par_iter()
+        .fold(Stats::default, |mut st, ci| {
+            for idx in ci * chunk..((ci + 1) * chunk).min(wtotal) {
+                let widx: Vec<u32> = token_string(&(0..words.len() as u32).collect::<Vec<u32>>(), idx);
+                let body: String = widx.iter().map(|&i| words[i as usize]).collect();
+                for tpl in ["\\p{E}", "\\P{E}", "[\\p{E}]", "[^\\P{E}a]", "\\p{E", "\\pE}"] {
+                    let pat: Vec<u32> = tpl.replace('E', &body).chars().map(|c| c as u32).collect();
+                    for m in MODES {
+                        judge(&pat, Flags::parse(m), &mut st, runref, "property expression words");
+                    }
+                }
+            }
+            st
+        })
+        .reduce(Stats::default, Stats::merge);
+    st = st.merge(st_e);
     run.rule = format!(
-        "(a) every string over the {}-token alphabet {:?} of length <= {} x {{legacy, u, v}}; (b) {} seed patterns (printed from the named/mods/look/core/onechar/icase profiles plus hand-written structured syntax) x all single-token edits (delete, replace, insert at every position over a 28-token alphabet); (c) every string over the focused alphabet {{[ ] ( ) a \\ 1}} up to length 8 (9 thorough); (d) 29 size-parameterised shapes x sizes up to 1000 (nesting shapes up to 200, below the documented limits); verdict = with_flags(p,f).is_ok() <=> p in L(ES2025 Pattern[f]) as decided by the reference parser; non-trivial = the string is a valid pattern",
+        "(e) every sequence of <= {} words from {{sc scx gc Script General_Category = Greek Latin Lu L ASCII Any RGI_Emoji x _ space}} as the body of \\p{{..}} / \\P{{..}}, bare, in a class, and unterminated, x {{legacy, u, v}}; (a) every string over the {}-token alphabet {:?} of length <= {} x {{legacy, u, v}}; (b) {} seed patterns (printed from the named/mods/look/core/onechar/icase profiles plus hand-written structured syntax) x all single-token edits (delete, replace, insert at every position over a 28-token alphabet); (c) every string over the focused alphabet {{[ ] ( ) a \\ 1}} up to length 8 (9 thorough); (d) 29 size-parameterised shapes x sizes up to 1000 (nesting shapes up to 200, below the documented limits); verdict = with_flags(p,f).is_ok() <=> p in L(ES2025 Pattern[f]) as decided by the reference parser; non-trivial = the string is a valid pattern",
+        wn,
         toks.len(),
         TOKENS,
         n,
